@@ -4,6 +4,7 @@ import SodiumModel.Spec.Chacha
 import SodiumModel.Spec.Salsa
 import SodiumModel.Model.CoresRef
 import SodiumModel.Model.ChachaSimd
+import SodiumModel.Model.SalsaSimd
 /-
   The block/core functions passed to the driver models of `Model/Stream.lean` are the C-structured
   reference models of `Model/CoresRef.lean` (chacha20_ref.c, core_salsa_ref.c, core_hsalsa20_ref2.c,
@@ -14,6 +15,11 @@ import SodiumModel.Model.ChachaSimd
   host selects) and, up to 4 KiB, through the SSSE3-structured one; if either differs from the
   reference-structured model the line is answered `MODEL-DISAGREE` (which the runner reports as a
   violation). `Properties/C03Simd.lean` proves they never differ.
+
+  Likewise every Salsa20 / XSalsa20 operation (the functions that dispatch to `crypto_stream/salsa20/xmm6int`; salsa2012
+  and salsa208 have only the reference code) is ADDITIONALLY run through the AVX2-structured model of the xmm6int code
+  (`Model/SalsaSimd.lean`: u8.h → u4.h → u1.h → u0.h) and, up to 4 KiB, through the SSE2-structured one;
+  `Properties/C03SalsaSimd.lean` proves they never differ (for 8-byte nonces).
 -/
 namespace Sodium.Driver.C03
 open Sodium Sodium.Model Sodium.Driver Sodium.Spec Sodium.Model.CoresRef
@@ -79,10 +85,13 @@ def handle (op : String) (args : List String) : Option String :=
       (fun _ => ChachaSimd.ssse3.stream_ref_xor_ic m m (n.drop 16) ic k2))
   | "stream.salsa20", [len, n, k] => do
     let len ← parseNat? len; let n ← ofHex n; let k ← ofHex k
-    some (toHex (salsa_stream (salsaS 20 k n) len))
+    some (xcheck (salsa_stream (salsaS 20 k n) len)
+      (fun _ => SalsaSimd.avx2.stream len n k) (fun _ => SalsaSimd.sse2.stream len n k))
   | "stream.salsa20_xor_ic", [m, n, ic, k] => do
     let m ← ofHex m; let n ← ofHex n; let ic ← u64? ic; let k ← ofHex k
-    some (toHex (salsa_xor_ic (salsaS 20 k n) ic m))
+    some (xcheck (salsa_xor_ic (salsaS 20 k n) ic m)
+      (fun _ => SalsaSimd.avx2.stream_xor_ic (zeros m.length) m n ic k)
+      (fun _ => SalsaSimd.sse2.stream_xor_ic m m n ic k))
   | "stream.salsa2012", [len, n, k] => do
     let len ← parseNat? len; let n ← ofHex n; let k ← ofHex k
     some (toHex (salsa_stream (salsaS 12 k n) len))
@@ -97,10 +106,15 @@ def handle (op : String) (args : List String) : Option String :=
     some (toHex (salsa_xor_ic (salsaS 8 k n) 0 m))
   | "stream.xsalsa20", [len, n, k] => do
     let len ← parseNat? len; let n ← ofHex n; let k ← ofHex k
-    some (toHex (salsa_stream (salsaS 20 (crypto_core_hsalsa20 (n.take 16) k none) (n.drop 16)) len))
+    let k2 := crypto_core_hsalsa20 (n.take 16) k none
+    some (xcheck (salsa_stream (salsaS 20 k2 (n.drop 16)) len)
+      (fun _ => SalsaSimd.avx2.stream len (n.drop 16) k2) (fun _ => SalsaSimd.sse2.stream len (n.drop 16) k2))
   | "stream.xsalsa20_xor_ic", [m, n, ic, k] => do
     let m ← ofHex m; let n ← ofHex n; let ic ← u64? ic; let k ← ofHex k
-    some (toHex (salsa_xor_ic (salsaS 20 (crypto_core_hsalsa20 (n.take 16) k none) (n.drop 16)) ic m))
+    let k2 := crypto_core_hsalsa20 (n.take 16) k none
+    some (xcheck (salsa_xor_ic (salsaS 20 k2 (n.drop 16)) ic m)
+      (fun _ => SalsaSimd.avx2.stream_xor_ic (zeros m.length) m (n.drop 16) ic k2)
+      (fun _ => SalsaSimd.sse2.stream_xor_ic m m (n.drop 16) ic k2))
   | "core.hchacha20", [inp, k, c] => do
     let inp ← ofHex inp; let k ← ofHex k
     let c ← if c = "N" then some none else (ofHex c).map some
